@@ -55,6 +55,154 @@ def run(chk, repo):
     chk.rule("C15-L4", "the file-name grammar's component sub-languages contain the dedicated component grammars", 3)
     chk.rule("C15-L5", "documented code characters are accepted by the grammar", 5)
     chk.rule("C15-L6", "every named group has a translator", 3)
+    chk.rule("C15-L8", "decoders evaluated on the language composed from the code tables (every product id, scan suffix, sampled dates and file names) give each component its table meaning; near misses and impossible dates raise ValueError", 500)
+    chk.attempt(language_evaluation, chk, repo)
+    chk.attempt(grammar_rules, chk, repo, covered_by="language_evaluation")
+    from .c13 import groupname_injective
+    chk.rule("C15-L7", "the image group name is unique per (polarisation, scan): exhaustive over the 55 combinations the grammar admits", 2)
+    chk.attempt(groupname_injective, chk, repo, "C15-L7")
+
+
+GROUP_TABLE = {"observation_mode": "observation_modes", "observation_direction": "observation_directions", "processing_level": "processing_levels",
+               "processing_option": "processing_options", "map_projection": "map_projections", "orbit_direction": "orbit_directions", "processing_method": "processing_methods"}
+PID_ORDER = ["observation_mode", "observation_direction", "processing_level", "processing_option", "map_projection", "orbit_direction"]
+
+
+def _literal_table(mod, name):
+    e = mod.assigns.get(name)
+    if not e or not isinstance(e[-1], ast.Dict) or not all(const_str(k) is not None and const_str(v) is not None for k, v in zip(e[-1].keys, e[-1].values)):
+        raise AnalysisError(f"anchor vanished: literal code table {mod.name}:{name}")
+    return {const_str(k): const_str(v) for k, v in zip(e[-1].keys, e[-1].values)}
+
+
+def language_evaluation(chk, repo):
+    """the decoders' syntax trees are evaluated (constant folding in the checker's interpreter; regexes, dict lookups and date
+    parsing are folded by the standard library / dateutil on constants) on every identifier composed from the code tables and
+    on near misses.  Oracle: component c of table T decodes to T[c]; a string outside the composed language raises ValueError."""
+    import datetime
+    from ..repeval import from_shape
+    from ..shapes import Const, Interp, ShapeError, _Raise
+    mod = repo.module(DECODERS)
+    tables = {g: _literal_table(mod, t) for g, t in GROUP_TABLE.items()}
+    for g, doc in DOCUMENTED.items():
+        if g in tables:
+            chk.require(doc <= set(tables[g]), "C15-L5", f"{mod.relpath}:{GROUP_TABLE[g]}", f"table {GROUP_TABLE[g]} lists every documented code {sorted(doc)}",
+                        f"table {GROUP_TABLE[g]} lacks the documented codes {sorted(doc - set(tables[g]))}", key=f"table:{g}:documented")
+    I = Interp(repo)
+    sc = I.module_scope(mod)
+    si = repo.module("ceos_alos2.sar_image")
+    thorough = chk.tier == "thorough"
+
+    def call(fn, s, scope=sc):
+        try:
+            return "ok", from_shape(I.call(I.lookup(fn, scope), [Const(s)], {}))
+        except _Raise as e:
+            return "raise", e
+        except (ShapeError, AnalysisError) as e:
+            raise AnalysisError(f"{mod.relpath}:{fn} cannot be evaluated on {s!r}: {str(e)[:140]}")
+
+    stats = {"valid": 0, "nearmiss": 0}
+    fails = {}
+
+    def expect_value(fn, s, want, what):
+        stats["valid"] += 1
+        st, got = call(fn, s)
+        if st == "raise":
+            fails.setdefault((fn, "rejected"), []).append(f"{fn}({s!r}) raises {got.what[:60]} although {what}")
+        elif got != want:
+            diff = {k: (got.get(k) if isinstance(got, dict) else got, want[k]) for k in want if not isinstance(got, dict) or got.get(k) != want[k]}
+            extra = sorted(set(got) - set(want)) if isinstance(got, dict) else []
+            fails.setdefault((fn, "wrong"), []).append(f"{fn}({s!r}): {({k: v[0] for k, v in diff.items()})} instead of {({k: v[1] for k, v in diff.items()})}" + (f", extra keys {extra}" if extra else ""))
+
+    def expect_valueerror(fn, s, why, scope=sc):
+        stats["nearmiss"] += 1
+        st, got = call(fn, s, scope)
+        if st == "ok":
+            fails.setdefault((fn, "accepted"), []).append(f"{fn}({s!r}) returns {str(got)[:90]} although {why}: it must raise ValueError")
+        elif got.classes is not None and "ValueError" not in got.classes:
+            fails.setdefault((fn, "errclass"), []).append(f"{fn}({s!r}) raises {got.classes[0]} ({got.what[:50]}), not ValueError ({why})")
+
+    # ---- product ids
+    combos = list(itertools.product(*[list(tables[g]) for g in PID_ORDER]))
+    valid_pids = {"".join(c) for c in combos}
+    step = 1 if thorough else 7
+    chosen = combos[::step]
+    if not thorough:  # every code of every component at least once in two different contexts
+        for gi, g in enumerate(PID_ORDER):
+            for code in tables[g]:
+                for base in (combos[0], combos[-1]):
+                    chosen.append(base[:gi] + (code,) + base[gi + 1:])
+    for c in chosen:
+        pid = "".join(c)
+        expect_value("decode_product_id", pid, {g: tables[g][code] for g, code in zip(PID_ORDER, c)}, "it is composed from the code tables")
+    alphabet = "AZ09._xL1"
+    for c in chosen[:: max(1, len(chosen) // 40)]:
+        pid = "".join(c)
+        for i in range(len(pid)):
+            for ch in alphabet:
+                m = pid[:i] + ch + pid[i + 1:]
+                if m not in valid_pids:
+                    expect_valueerror("decode_product_id", m, f"no table lists the code at position {i}")
+            m = pid[:i] + pid[i + 1:]
+            expect_valueerror("decode_product_id", m, "one character is missing")
+        for m in (pid + "A", "W" + pid, pid + " ", pid.lower()):
+            expect_valueerror("decode_product_id", m, "it is not a product id")
+    # ---- scan suffixes
+    for pm, meaning in tables["processing_method"].items():
+        for d in "0123456789":
+            expect_value("decode_scan_info", pm + d, {"processing_method": meaning, "scan_number": d}, "it is a documented scan suffix")
+    for m in ("B", "3", "X1", "B10", "b1", "F-1", "BF", "B 1", "B1 "):
+        expect_valueerror("decode_scan_info", m, "it is not <B|F><digit>")
+    # ---- scene ids: every date 2014-2049 (thorough) or month ends, leap days and a stride (quick)
+    d, end = datetime.date(2014, 1, 1), datetime.date(2049, 12, 31)
+    dates = []
+    while d <= end:
+        nxt = d + datetime.timedelta(days=1)
+        if thorough or d.day == 1 or nxt.day == 1 or d.day in (12, 13, 28, 29, 30) and d.month in (1, 2, 12) or (d - datetime.date(2014, 1, 1)).days % 97 == 0:
+            dates.append(d)
+        d = nxt
+    for n_, dd in enumerate(dates):
+        orbit, frame = f"{(n_ * 37) % 100000:05d}", f"{(n_ * 13) % 10000:04d}"
+        sid = f"ALOS2{orbit}{frame}-{dd:%y%m%d}"
+        expect_value("decode_scene_id", sid, {"mission_name": "ALOS2", "orbit_accumulation": orbit, "scene_frame": frame, "date": datetime.datetime(dd.year, dd.month, dd.day)}, "it names a valid acquisition date")
+    impossible = ["140230", "150229", "140431", "140631", "140931", "141131", "140100", "140001", "141301", "149901", "140132", "180732", "121426", "180035", "000000", "999999", "146031"]
+    for bad in impossible:
+        expect_valueerror("decode_scene_id", f"ALOS2012345678-{bad}", f"{bad[2:4]}/{bad[4:6]} of 20{bad[:2]} is not a calendar date")
+    for m in ("ALOS2012345678-14010", "ALOS2012345678-1401022", "ALOS201234567-140102", "ALOS2012345678_140102", "alos2012345678-140102", "ALOS2012345678-14O102", "ALOS20123456x8-140102", "ALOS2012345678-140102 ", ""):
+        expect_valueerror("decode_scene_id", m, "it is not <mission 5><orbit 5><frame 4>-<yymmdd>")
+    # ---- file names: components are decoded by their own decoder and merged
+    pid_sample = ["".join(c) for c in (combos if thorough else combos[:: max(1, len(combos) // 60)])]
+    sid, sdate = "ALOS2012345678-160229", datetime.datetime(2016, 2, 29)
+    base_scene = {"mission_name": "ALOS2", "orbit_accumulation": "01234", "scene_frame": "5678", "date": sdate}
+    pid_meaning = {"".join(c): {g: tables[g][code] for g, code in zip(PID_ORDER, c)} for c in combos}
+    shapes = [("IMG", pol, scan) for pol in ("HH", "HV", "VH", "VV") for scan in [None] + [pm + d_ for pm in tables["processing_method"] for d_ in ("0", "3", "9")]] + [("LED", None, None), ("VOL", None, None), ("TRL", None, None)]
+    for k, pid in enumerate(pid_sample):
+        for ft, pol, scan in (shapes if thorough or k % 10 == 0 else shapes[k % len(shapes)::len(shapes)] or shapes[:1]):
+            name = ft + (f"-{pol}" if pol else "") + f"-{sid}-{pid}" + (f"-{scan}" if scan else "")
+            want = {"filetype": ft, "polarization": pol, **base_scene, **pid_meaning[pid]}
+            if scan:
+                want.update({"processing_method": tables["processing_method"][scan[0]], "scan_number": scan[1]})
+            expect_value("decode_filename", name, want, "it is composed from valid components")
+    good = f"IMG-HH-{sid}-{pid_sample[0]}-B3"
+    for m, why in ((good + "x", "trailing garbage"), ("x" + good, "leading garbage"), (good.replace("-HH-", "-HX-"), "polarisation HX"), (good.replace("-HH-", "-HHH-"), "three-letter polarisation"),
+                   (good.replace("-B3", "-B"), "scan suffix without number"), (good.replace("-B3", "-C3"), "scan method C"), (good.replace(sid, "ALOS2012345678-180732"), "impossible date"),
+                   (good.replace(pid_sample[0], "WBDR1.6RUD"), "level 1.6"), (good.replace(pid_sample[0], "QQQR1.5RUD"), "unknown mode"), (good.replace("IMG-", "IMG_"), "wrong separator"),
+                   (good.replace("-" + sid, ""), "missing scene id"), (good.lower(), "lower case")):
+        expect_valueerror("decode_filename", m, why)
+        if m.startswith("IMG-H"):
+            expect_valueerror("filename_to_groupname", m, why + " (image file name)", scope=I.module_scope(si))
+    for (fn, kind), msgs in sorted(fails.items()):
+        chk.fail("C15-L8", f"{mod.relpath}:{fn}", msgs[0] + (f" (and {len(msgs) - 1} more)" if len(msgs) > 1 else ""), key=f"language:{fn}:{kind}")
+    n_ok = stats["valid"] + stats["nearmiss"] - sum(len(v) for v in fails.values())
+    chk.rules["C15-L8"]["instances"] += max(n_ok, 0)
+    chk.obligations.append({"rule": "C15-L8", "where": f"{mod.relpath}", "holds": not fails,
+                            "what": f"{stats['valid']} composed identifiers decode to their table meanings, {stats['nearmiss']} near misses / impossible dates raise ValueError ({'full' if thorough else 'strided'} cross product of the tables; {len(dates)} dates)"})
+    chk.samples.append({"rule": "C15-L8", "where": mod.relpath, "obligation": {"composed identifiers": stats["valid"], "near misses": stats["nearmiss"], "dates": len(dates), "product ids": len(chosen)}})
+    chk.count("identifiers_evaluated", stats["valid"] + stats["nearmiss"])
+
+
+def grammar_rules(chk, repo):
+    mod = repo.module(DECODERS)
     rx = compiled_regexes(mod)
     for name in DEC_FUNCS.values():
         if name not in rx:
@@ -149,7 +297,7 @@ def run(chk, repo):
         chk.require(ok_none, "C15-L2", where, "a non-matching string raises ValueError", f"{fname} does not raise ValueError when the regex does not match", key=f"{fname}:nomatch")
     # translators that can fail with something else than ValueError must be wrapped
     sid = mod.func("decode_scene_id")
-    uses_date = trans.get("date", ("", ""))[0] == "external"
+    uses_date = trans.get("date", ("", ""))[0] not in ("lookup", "passthrough")  # a parser: fails with a ValueError subclass of its own
     if uses_date:
         wrapped = False
         for n in sid.own_nodes():
@@ -210,9 +358,6 @@ def run(chk, repo):
     pol = F.groups.get("polarization")
     chk.require(pol is not None and pol["lang"] == {"HH", "HV", "VH", "VV"}, "C15-L5", f"{mod.relpath}:fname_re", "polarisation is [HV]{2}",
                 f"polarisation language is {_fmt(pol['lang']) if pol else None}", key="fname:polarization")
-    from .c13 import groupname_injective
-    chk.rule("C15-L7", "the image group name is unique per (polarisation, scan): exhaustive over the 55 combinations the grammar admits", 2)
-    chk.attempt(groupname_injective, chk, repo, "C15-L7")
     if chk.tier == "thorough":
         enumerate_ids(chk, mod, rx, trans)
 
